@@ -203,7 +203,35 @@ class Flow:
                     changed = True
             if not changed:
                 break
-        return tuple(conds), leaf
+        # propositional clean-up: is_some(Some(..)), constants, !(true && c) -> !c, and conjunctions split into their parts
+        from .terms import simp_bool
+        flat = []
+        for c in conds:
+            c = simp_bool(c)
+            if c == TRUE:
+                continue
+            if isinstance(c, tuple) and c and c[0] == 'op' and c[1] == 'and':
+                flat.extend(c[2])
+            else:
+                flat.append(c)
+        # unit propagation: !(a && b) with a among the other conditions is !b;  (a || b) with !a among them is b
+        for _ in range(3):
+            known = set(flat)
+            changed = False
+            for i, c in enumerate(flat):
+                if c[0] == 'op' and c[1] == 'not' and c[2][0][0] == 'op' and c[2][0][1] == 'and':
+                    rest = [x for x in c[2][0][2] if x not in known]
+                    if len(rest) < len(c[2][0][2]) and rest:
+                        flat[i] = neg_cond(rest[0]) if len(rest) == 1 else neg_cond(('op', 'and', tuple(rest)))
+                        changed = True
+                elif c[0] == 'op' and c[1] == 'or':
+                    rest = [x for x in c[2] if neg_cond(x) not in known]
+                    if len(rest) < len(c[2]) and rest:
+                        flat[i] = rest[0] if len(rest) == 1 else ('op', 'or', tuple(rest))
+                        changed = True
+            if not changed:
+                break
+        return tuple(flat), leaf
 
     def cell_cases(self, cell, deep=True):
         t = self.m.up_fields.get(cell)
